@@ -29,10 +29,11 @@ MANIFEST_ENTRY = {
             "min(old,new) bytes and alloc0/realloc0 zero exactly the new bytes (arena, heap). The heap theorems are stated on an abstract chunk-list model AND "
             "transferred to the memory-level model (header words, prev_adj/next/prev links, bins, NODE_COOKIE marks) by a proved refinement: every operation "
             "of the memory-level model simulates the abstract one (C11_heap_refinement). The refinement carries a mark invariant (no 16-aligned address "
-            "other than a chunk header or the end node carries the used mark), from which: after any history dealloc of ANY non-nil pointer that is not a "
-            "live block panics - double frees, pointers of an earlier generation, pointers into payloads - except the one address just past the end node "
-            "(C11_heap_mem_invalid_free_reported_partial; the exception is real, _refuted, OPEN FINDING: dealloc(buffer+SIZE) is accepted when the end node "
-            "is 16-aligned and corrupts the heap). Every write of the memory-level heap goes to a header word of an old or new chunk, so no operation changes a word of a block that stays live (C11_heap_mem_payload_frame). The derived operations of Allocator_implement_interface (alloc0/realloc0/x*/span*/new/delete) are modelled "
+            "other than a chunk header or the end node carries the used mark), from which: after any history dealloc (and realloc) of ANY non-nil pointer that is "
+            "not a live block panics - double frees, pointers of an earlier generation, pointers into payloads, one past the end of the buffer "
+            "(C11_heap_mem_invalid_free_reported, full strength after the repairs 9ef0717 and d9328b9). TWO OPEN FINDINGS about Heap:add_memory_region: a region with room "
+            "for one node passes the code's check and hands out memory beyond the buffer (the theorems assume room for two nodes; _code_check_refuted is the witness), "
+            "and a SIZE that is not a multiple of 8 puts the end node at a misaligned address (undefined behaviour, seen under -fsanitize=alignment). Every write of the memory-level heap goes to a header word of an old or new chunk, so no operation changes a word of a block that stays live (C11_heap_mem_payload_frame). The derived operations of Allocator_implement_interface (alloc0/realloc0/x*/span*/new/delete) are modelled "
             "generically over the primitives with theorems that they are the stated primitive calls; span counts and AlignedAllocator requests never wrap "
             "(C11_arena_span_in, C11_aligned_fits: full strength after the repairs 942989e, 532034f). TESTING ONLY (shadow-map oracle on the real allocators): "
             "heap/stack/pool payload contents at the memory level, AlignedAllocator over whole histories, the derived operations on the real code, release builds. "
@@ -40,8 +41,8 @@ MANIFEST_ENTRY = {
             "constants and line-by-line correspondence of offsets and of the complete internal state.",
     "note": "trusted: Coq 8.16.1 kernel; the hand-written models (tied to /repo by regenerated constants and by differential correspondence of offsets and of the "
             "complete internal state after every operation, which is testing, not proof); extraction with ExtrOcamlBasic; OCaml/Nelua/Python harness glue. "
-            "Payload bytes are byte functions separate from the header memory; the header memory is word-addressed (faithful for 8-aligned accesses; the end node of a "
-            "HeapAllocator whose SIZE is not a multiple of 8 is accessed unaligned by the real code); GeneralAllocator (libc) and GCAllocator (C10) are outside; "
+            "Payload bytes are byte functions separate from the header memory; the header memory is word-addressed (proved exact for the writes when the end node is 8-aligned, "
+            "C11_heap_mem_writes_aligned; a HeapAllocator whose SIZE is not a multiple of 8 accesses its end node misaligned - open finding); GeneralAllocator (libc) and GCAllocator (C10) are outside; "
             "release builds are not exercised.",
     "technique": "machine-checked proof in Coq over executable models (incl. a proved refinement memory-level -> abstract heap) + extracted-model/implementation "
                  "correspondence on interactive histories + shadow-map property oracle",
@@ -53,8 +54,9 @@ THEOREM_CLASSES = {
     "C11_pool_safe": "main", "C11_pool_total": "main",
     "C11_heap_safe": "main", "C11_heap_no_adjacent_free": "main", "C11_heap_release_all_restores": "main",
     "C11_heap_refinement": "main", "C11_heap_mem_safe": "corollary",
-    "C11_heap_mem_invalid_free_reported_partial": "main", "C11_heap_mem_invalid_free_reported_refuted": "refutation",
-    "C11_heap_mem_payload_frame": "main",
+    "C11_heap_mem_invalid_free_reported": "main", "C11_heap_mem_invalid_free_reported_full": "corollary",
+    "C11_heap_mem_invalid_realloc_reported": "corollary",
+    "C11_heap_mem_payload_frame": "main", "C11_heap_mem_writes_aligned": "main", "C11_heap_mem_safe_code_check_refuted": "refutation",
     "C11_heap_realloc_preserves": "main", "C11_heap_alloc0_zeroes": "definitional", "C11_heap_realloc0_zeroes": "definitional",
     "C11_iface_alloc0": "definitional", "C11_iface_xalloc": "definitional", "C11_iface_xrealloc": "definitional",
     "C11_iface_realloc0": "definitional", "C11_iface_spanalloc": "main", "C11_iface_spanrealloc": "definitional",
@@ -65,7 +67,7 @@ THEOREM_CLASSES = {
 ALLOWED_AXIOMS = []
 TRUSTED_BASE = [
     "coqc 8.16.1 kernel (vm_compute used for parameter facts and refutation witnesses; no native_compute)",
-    "no axioms: every theorem of coq/C11/Properties.v is 'Closed under the global context'; models mirror lib/allocators after the repairs 484ce8f, 961d315, 942c78c, b8d094a, 942989e, 532034f, 9ef0717",
+    "no axioms: every theorem of coq/C11/Properties.v is 'Closed under the global context'; models mirror lib/allocators after the repairs 484ce8f, 961d315, 942c78c, b8d094a, 942989e, 532034f, 9ef0717, d9328b9",
     "translator checks/C11.py:gen (regex scrape of ALLOC_ALIGN/MIN_ALLOC_SIZE/BIN_COUNT/BIN_MAX_LOOKUPS/NODE_COOKIE/HeapNode fields/get_bin_index constants in heap.nelua, StackAllocHeader + static asserts in stack.nelua, default ALIGN in arena.nelua; typedefs.maxalign and pointer size probed through the real compiler)",
     "extraction: Require Extraction + ExtrOcamlBasic only; Z/positive/nat stay Coq inductives; no Extract Constant of our own",
     "ocaml/zutil.ml + coq/C11/driver.ml (line protocol, handle table, closures handing an instance's primitives to the extracted interface wrappers, printing of the model state), harness/C11/driver.nelua (calls the allocators, keeps the handle table, prints offsets and internal state read through the allocator records), OCaml 4.13.1, gcc, the Nelua compiler itself (the driver is compiled by it, default checked build)",
@@ -75,8 +77,9 @@ TRUSTED_BASE = [
 ]
 ASSUMPTIONS = [
     "the buffer is a real object: base > 0 and base + SIZE + ALIGN + header (+ MIN_ALLOC_SIZE for the heap) <= 2^64 (no address wrap)",
-    "clients write only inside blocks they own (frame condition of the stack/pool theorems). The heap's memory-level model has no client writes: C11_heap_mem_invalid_free_reported_partial says that the ALLOCATOR never leaves a used mark (next=1, prev=NODE_COOKIE) anywhere but at chunk headers and the end node; a client that writes that 16-byte pattern into its own payload can still forge a header (inherent to a cookie test)",
-    "the heap's header memory is word-addressed (address -> 64-bit word): faithful when all header accesses are 8-aligned, i.e. when SIZE minus the alignment offset of the buffer is a multiple of 8; otherwise the real end node is accessed unaligned (instances h0..h5 of the harness have 8-aligned end nodes)",
+    "heap: the region has room for two nodes, SIZE >= 2*NODE + ALLOC_ALIGN = 80 (hcfg_ok). The code's own check demands one node only; below 80 bytes the statement is false (C11_heap_mem_safe_code_check_refuted, open finding 'heap(48): alloc 100')",
+    "clients write only inside blocks they own (frame condition of the stack/pool theorems). The heap's memory-level model has no client writes: C11_heap_mem_invalid_free_reported says that the ALLOCATOR never leaves a used mark (next=1, prev=NODE_COOKIE) anywhere but at chunk headers and the end node; a client that writes that 16-byte pattern into its own payload can still forge a header (inherent to a cookie test)",
+    "the heap's header memory is word-addressed (address -> 64-bit word). C11_heap_mem_writes_aligned proves that this is exact for the writes when the end node is 8-aligned (all written words are 8-aligned, hence pairwise equal or disjoint); for a SIZE that is not a multiple of 8 the real end node is accessed misaligned (open finding 'heap(1001): alloc 8 [-fsanitize=alignment]'; instance h6 of the harness exercises that case in the correspondence, and x86 tolerates it). Reads through invalid client pointers (the invalid-free theorems) are 8-aligned too because get_ptr_node refuses pointers that are not 16-aligned",
     "correspondence is differential testing over generated histories, not a proof that model = code",
     "checked (default) build: check()/bounds checks abort; release builds are not exercised",
 ]
@@ -751,10 +754,10 @@ def run_history(R, rng, nops, style):
 
 
 # --------------------------------------------------------------------------------------------
-# histories of the ten repaired defects (replayed every run, must pass) and scripted precondition-violating histories
+# histories of the eleven repaired defects (replayed every run, must pass) and scripted precondition-violating histories
 # --------------------------------------------------------------------------------------------
 BIG = M64 - 8
-# each was a known finding until the fix commits 484ce8f / 961d315 / 942c78c / b8d094a / 942989e / 532034f / 9ef0717; the text says what used to fail
+# each was a known finding until the fix commits 484ce8f / 961d315 / 942c78c / b8d094a / 942989e / 532034f / 9ef0717 / d9328b9; the text says what used to fail
 REGRESSIONS = [
     # key, instance, ops, what used to fail
     ("arena(64,8): alloc 16; alloc 18446744073709551608; alloc 8", "a0",
@@ -788,17 +791,29 @@ REGRESSIONS = [
      ["alloc 0 100", "alloc 1 50", "deallocall", "alloc 2 400", "rawdealloc 184"],
      "HeapAllocatorT:deallocall left the NODE_COOKIE marks of the old chunks in the buffer: the stale pointer of the previous generation passed the cookie test, dealloc linked garbage into a bin and the next alloc overlapped a live block",
      True),
+    # repaired by d9328b9 (the last op must be reported)
+    ("heap(200): alloc 8; dealloc #0; rawdealloc 200; alloc 190", "h3",
+     ["alloc 0 8", "dealloc 0", "rawdealloc 200"],
+     "Heap:dealloc accepted the one-past-the-end pointer of the buffer: the end sentinel node carries the used mark (next=1, prev=NODE_COOKIE), so "
+     "get_ptr_node(buffer+SIZE) succeeded whenever the sentinel is 16-aligned; dealloc merged the sentinel into the last free chunk (writing 8 bytes "
+     "beyond the buffer) and the next alloc handed out a block that ends beyond the buffer",
+     True),
 ]
 
 # defects of the unchanged tree that are still open: replayed every run, reported under their exact key
 # (listed in known_findings/C11.json; proposed repair in harness/C11/proposed_repairs/)
 KNOWN_DEFECTS = [
-    ("heap(200): alloc 8; dealloc #0; rawdealloc 200; alloc 190", "h3",
-     ["alloc 0 8", "dealloc 0", "rawdealloc 200", "alloc 1 190"],
-     "Heap:dealloc accepts the one-past-the-end pointer of the buffer: the end sentinel node carries the used mark (next=1, prev=NODE_COOKIE), so "
-     "get_ptr_node(buffer+SIZE) succeeds whenever the sentinel is 16-aligned; dealloc merges the sentinel into the last free chunk (writing 8 bytes "
-     "beyond the buffer) and the next alloc hands out a block that ends beyond the buffer"),
+    ("heap(48): alloc 100", "x0", ["alloc 0 100"],
+     "Heap:add_memory_region only checks that the region holds ONE node (region_size >= offset + #HeapNode) but places two (start and end node): for a "
+     "region of offset+32 .. offset+63 bytes the size of the start node, heap_size - #HeapNode, underflows to about 2^64 and alloc hands out blocks "
+     "beyond the buffer: HeapAllocator(48):alloc(100) returns a 100-byte block at offset 40 of the 48-byte buffer"),
 ]
+
+# undefined behaviour visible under -fsanitize=alignment only (harness/C11/ubprobe.nelua); an open finding while the probe trips
+UB_KEY = "heap(1001): alloc 8 [-fsanitize=alignment]"
+UB_WHAT = ("Heap:add_memory_region places the end node at heap_start + (region_size - offset - #HeapNode) without rounding: for a SIZE that is not a "
+           "multiple of 8 (HeapAllocator(1001)) the end node is not 8-aligned and every access to it (set_used, prev_adj, is_used in dealloc/realloc) "
+           "is a misaligned member access, undefined behaviour in the generated C")
 
 # scripted precondition-violating histories: (name, instance, ops, must_panic_at_last_op)
 VIOLATING = [
@@ -809,6 +824,8 @@ VIOLATING = [
     ("heap foreign pointer (misaligned)", "h0", ["alloc 0 100", "rawdealloc 44"], True),
     ("heap foreign pointer (inside payload)", "h0", ["alloc 0 100", "rawdealloc 56"], True),
     ("heap realloc of freed pointer", "h0", ["alloc 0 100", "dealloc 0", "rawrealloc 40 10 100"], True),
+    ("heap realloc of the one-past-the-end pointer", "h3", ["alloc 0 8", "rawrealloc 200 16 8"], True),
+    ("heap dealloc of the one-past-the-end pointer, last chunk used", "h3", ["alloc 0 100", "rawdealloc 200"], True),
     ("arena foreign pointer (beyond buffer)", "a0", ["alloc 0 8", "rawdealloc 64"], True),
     ("arena foreign pointer (misaligned)", "a0", ["alloc 0 8", "rawdealloc 3"], True),
     ("arena foreign pointer (in range, aligned)", "a0", ["alloc 0 8", "alloc 1 8", "rawdealloc 16"], False),
@@ -958,6 +975,31 @@ def correspond(ctx):
                                   "replay": replay_cmd(R.alllines), "proposed_repair": "harness/C11/proposed_repairs/"})
         stats["ops"] += len(R.alllines)
 
+    # ---- 1c. undefined behaviour the ordinary build hides: the same library under -fsanitize=alignment
+    ubsrc = os.path.join(vlib.VERIF, "harness", ID, "ubprobe.nelua")
+    ubexe = exe.replace("driver-", "ubprobe-")
+    if not os.path.exists(ubexe):
+        for f in os.listdir(work):
+            if f.startswith("ubprobe-"):
+                try:
+                    os.remove(os.path.join(work, f))
+                except OSError:
+                    pass
+        cdir_ = os.path.join(work, "nelua-cache-ub-%d" % os.getpid())
+        rc, o, e = vlib.nelua_build(ubsrc, ubexe, extra=["--cflags=-fsanitize=alignment -fno-sanitize-recover=all"], cache_dir=cdir_)
+        shutil.rmtree(cdir_, ignore_errors=True)
+        if rc != 0 or not os.path.exists(ubexe):
+            ctx.violation("ubprobe-build", "harness", "harness/C11/ubprobe.nelua does not compile with -fsanitize=alignment: %s" % (o + e)[-400:],
+                          failing_input=False)
+            ubexe = None
+    if ubexe:
+        rc, o, e = vlib.sh([ubexe], timeout=60)
+        stats["ops"] += 8
+        if "misaligned address" in e or "runtime error" in e or rc != 0 or not o.startswith("ok"):
+            ctx.violation(UB_KEY, "oracle", "%s -- %s" % (UB_WHAT, (e.strip().split("\n") or [""])[0][:300] or ("exit status %s, output %r" % (rc, o[:80]))),
+                          detail={"source": "harness/C11/ubprobe.nelua", "cflags": "-fsanitize=alignment -fno-sanitize-recover=all", "replay": ubexe,
+                                  "proposed_repair": "harness/C11/proposed_repairs/"})
+
     # ---- 2. precondition-violating histories, one process each, outcome compared as an enum
     viol = list(VIOLATING)
     for name, inst, ops, must in viol:
@@ -983,7 +1025,8 @@ def correspond(ctx):
     impl = Impl(exe)
     transcript = []     # (history index, line, response)
     hist_meta = []
-    names = {k: [n for n, d in impl.info.items() if d["kind"] == k] for k in ("arena", "stack", "pool", "heap", "aligned")}
+    # instances named x* are for scripted histories only (configurations outside the theorems' hypotheses)
+    names = {k: [n for n, d in impl.info.items() if d["kind"] == k and not n.startswith("x")] for k in ("arena", "stack", "pool", "heap", "aligned")}
     # thorough excludes nothing; quick skips the 1 MiB heap for speed except now and then
     nhist = ctx.scale(700, 24000)
     nops = ctx.scale(45, 70)
@@ -1108,7 +1151,8 @@ def correspond(ctx):
 
 
 UNPROVED = [
-    "heap_mem_invalid_free_reported_full (SpecHeap.v: dealloc of EVERY non-live non-nil pointer panics) is FALSE of the code: the pointer just past the end node is accepted (C11_heap_mem_invalid_free_reported_refuted, open finding, repair proposed in harness/C11/proposed_repairs/04-heap-end-sentinel-free.diff); proved for every other pointer (_partial). The same holds for realloc of such a pointer (same get_ptr_node test; not stated separately)",
+    "heap_mem_safe_code_check_full (SpecHeap.v: placement safety under the code's own region-size check, one node) is FALSE of the code (C11_heap_mem_safe_code_check_refuted, open finding, repair proposed in harness/C11/proposed_repairs/05-heap-region-geometry.diff); C11_heap_mem_safe is the statement under hcfg_ok (two nodes)",
+    "C11_heap_mem_writes_aligned carries the hypothesis heap_end mod 8 = 0; without it the model is still self-consistent but the real code accesses the end node misaligned (open finding, same repair: with the rounding heap_end is 16-aligned for every configuration)",
     "heap payload CONTENTS at the memory level: C11_heap_mem_payload_frame proves that the allocator's own writes never touch a live payload, but realloc's memory.copy of a moved block is modelled on the separate byte function (hb_bytes) only, not in the word memory of Heap.v; stack/pool have no such memory-level frame theorem (their headers/links are in-band and covered by the safe theorems' client-write frame condition)",
     "pool: pool_good has no alignment clause beyond 'is a chunk start' (the alignment of T inside the chunk union is the compiler's layout, property C03)",
     "AlignedAllocator: alignment arithmetic, single-step alloc spec and 'fits in a fresh good block of the arena in any reachable arena state' are proved; a history-level theorem over aligned alloc/dealloc/realloc (headers of live aligned blocks are never overwritten) is not; its default realloc's memory.move is not a contents theorem",
